@@ -322,7 +322,14 @@ const (
 	tStructs
 	tMapPtr
 	tRaw
+	tNoNull    // value type whose pointer-receiver UnmarshalJSON rejects null (felt.Felt-like), otherwise an int
+	tMapStruct // map[string]valStruct (by-value validated structs)
+	tReqStruct // struct{Name string `validate:"required"`} by value
 )
+
+var ptypeNames = map[ptype]string{tInt: "int", tStr: "string", tBool: "bool", tPtrInt: "*int", tPtrStr: "*string", tInts: "[]int",
+	tStruct: "struct(min=1)", tPtrStruct: "*struct", tStructs: "[]struct", tMapPtr: "map[string]*struct", tRaw: "json.RawMessage",
+	tNoNull: "null-rejecting-unmarshaler", tMapStruct: "map[string]struct", tReqStruct: "struct(required)"}
 
 type pspec struct {
 	name string
@@ -407,6 +414,14 @@ var methodSpecs = []*mspec{
 			return okRes([]string{"false", `""`, "[]", "{}"}[((a[0].i%4)+4)%4])
 		}},
 	{name: uniName, shape: "escaped-name", eval: func(a []argv) outcome { return okRes("1") }},
+	{name: "nn", shape: "null-rejecting-unmarshaler", params: []pspec{{"x", false, tNoNull}, {"y", true, tNoNull}},
+		eval: func(a []argv) outcome { return okRes("[" + a[0].canon + "," + a[1].canon + "]") }},
+	{name: "valOpt", shape: "optional-validated-struct", params: []pspec{{"a", false, tInt}, {"v", true, tStruct}},
+		eval: func(a []argv) outcome { return okRes(`{"a":` + a[0].canon + `,"v":` + a[1].canon + `}`) }},
+	{name: "valMapVal", shape: "map-of-struct", params: []pspec{{"m", false, tMapStruct}},
+		eval: func(a []argv) outcome { return okRes(a[0].canon) }},
+	{name: "req", shape: "struct-required-tag", params: []pspec{{"r", false, tReqStruct}},
+		eval: func(a []argv) outcome { return okRes(a[0].canon) }},
 }
 
 var specByName = func() map[string]*mspec {
@@ -450,14 +465,24 @@ func zeroOf(t ptype) argv {
 		return argv{canon: "false"}
 	case tStruct:
 		return argv{canon: `{"a":0,"b":""}`}
+	case tNoNull:
+		return argv{canon: `{"V":0}`}
+	case tReqStruct:
+		return argv{canon: `{"name":""}`}
 	default:
 		return argv{canon: "null"}
 	}
 }
 
+// Null semantics (encoding/json documentation, independent of server.go): "The JSON null value unmarshals into an
+// interface, map, pointer, or slice by setting that Go value to nil. [...] Otherwise, the JSON null value has no
+// effect" - i.e. a plain value type keeps its zero value and no error is reported - and "Unmarshal calls
+// UnmarshalJSON, including when the input is a JSON null", so a type may reject null itself. A null is what the
+// caller supplied, so the handler must see exactly that decoding; struct values are then validated, and a zero
+// struct that violates its tags is a bad parameter.
 func checkStruct(v *jv) (argv, status) {
 	if v.k == 'n' {
-		return argv{}, stAmb // null for a non-pointer Go value: encoding/json leaves it zero; JSON-RPC does not say
+		return argv{}, stBad // zero valStruct: field a = 0 violates validate:"min=1"
 	}
 	if v.k != 'o' {
 		return argv{}, stBad
@@ -509,7 +534,7 @@ func check(t ptype, v *jv) (argv, status) {
 	switch t {
 	case tInt:
 		if v.k == 'n' {
-			return argv{}, stAmb
+			return argv{canon: "0"}, stOK
 		}
 		if v.k != '#' {
 			return argv{}, stBad
@@ -527,7 +552,7 @@ func check(t ptype, v *jv) (argv, status) {
 		return argv{}, stBad
 	case tStr:
 		if v.k == 'n' {
-			return argv{}, stAmb
+			return argv{canon: `""`}, stOK
 		}
 		if v.k != 's' {
 			return argv{}, stBad
@@ -535,7 +560,7 @@ func check(t ptype, v *jv) (argv, status) {
 		return argv{canon: canon(v)}, stOK
 	case tBool:
 		if v.k == 'n' {
-			return argv{}, stAmb
+			return argv{canon: "false"}, stOK
 		}
 		if v.k != 't' && v.k != 'f' {
 			return argv{}, stBad
@@ -649,13 +674,104 @@ func check(t ptype, v *jv) (argv, status) {
 		return argv{canon: sb.String(), n: len(keys)}, stOK
 	case tRaw:
 		return argv{canon: canon(v)}, stOK
+	case tNoNull:
+		if v.k == 'n' {
+			return argv{}, stBad // its UnmarshalJSON is called with null and refuses it
+		}
+		x, s := check(tInt, v)
+		if s != stOK {
+			return argv{}, s
+		}
+		return argv{canon: `{"V":` + x.canon + `}`, i: x.i}, stOK
+	case tMapStruct:
+		if v.k == 'n' {
+			return argv{canon: "null"}, stOK
+		}
+		if v.k != 'o' {
+			return argv{}, stBad
+		}
+		st := stOK
+		vals := map[string]string{}
+		keys := []string{}
+		for _, m := range v.o {
+			x, s := checkStruct(m.v) // a null value decodes to a zero struct, which fails validation
+			if s == stBad {
+				return argv{}, stBad
+			}
+			if s == stAmb {
+				st = stAmb
+			}
+			if _, ok := vals[m.key]; !ok {
+				keys = append(keys, m.key)
+			}
+			vals[m.key] = x.canon
+		}
+		if st != stOK {
+			return argv{}, st
+		}
+		sort.Strings(keys)
+		var sb strings.Builder
+		sb.WriteByte('{')
+		for i, k := range keys {
+			if i > 0 {
+				sb.WriteByte(',')
+			}
+			sb.WriteString(strconv.Quote(k) + ":" + vals[k])
+		}
+		sb.WriteByte('}')
+		return argv{canon: sb.String(), n: len(keys)}, stOK
+	case tReqStruct:
+		if v.k == 'n' {
+			return argv{}, stBad // zero struct: Name "" violates validate:"required"
+		}
+		if v.k != 'o' {
+			return argv{}, stBad
+		}
+		var name *jv
+		for _, m := range v.o {
+			if m.key != "name" {
+				return argv{}, stAmb // unknown or case-folded field name
+			}
+			name = m.v
+		}
+		if name == nil || name.k == 'n' {
+			return argv{}, stBad
+		}
+		x, s := check(tStr, name)
+		if s != stOK {
+			return argv{}, s
+		}
+		if name.s == "" {
+			return argv{}, stBad
+		}
+		return argv{canon: `{"name":` + x.canon + `}`}, stOK
 	}
 	return argv{}, stBad
 }
 
 // bind applies JSON-RPC parameter rules (by-position / by-name, optional tail, unknown names rejected).
 // params == nil means "omitted".
-func bind(sp *mspec, params *jv) ([]argv, status) {
+func nullNote(ex *expectation, t ptype, v *jv, s status) {
+	if ex == nil || v.k != 'n' {
+		return
+	}
+	how := "null->zero-value(invoked)"
+	switch {
+	case s == stBad && t == tNoNull:
+		how = "null->rejected-by-unmarshaler(-32602)"
+	case s == stBad:
+		how = "null->zero-fails-validator(-32602)"
+	case t == tPtrInt || t == tPtrStr || t == tInts || t == tPtrStruct || t == tStructs || t == tMapPtr || t == tMapStruct || t == tRaw:
+		how = "null->nil(invoked)"
+	}
+	if ex.nulls == nil {
+		ex.nulls = map[string]int{}
+	}
+	ex.nulls[how]++
+	ex.nulls["kind:"+ptypeNames[t]]++
+}
+
+func bind(sp *mspec, params *jv, ex *expectation) ([]argv, status) {
 	n := len(sp.params)
 	args := make([]argv, n)
 	empty := params == nil || (params.k == 'a' && len(params.a) == 0) || (params.k == 'o' && len(params.o) == 0)
@@ -677,6 +793,7 @@ func bind(sp *mspec, params *jv) ([]argv, status) {
 		for i, p := range sp.params {
 			if i < len(params.a) {
 				x, s := check(p.t, params.a[i])
+				nullNote(ex, p.t, params.a[i], s)
 				if s == stBad {
 					return nil, stBad
 				}
@@ -696,6 +813,7 @@ func bind(sp *mspec, params *jv) ([]argv, status) {
 			case v != nil:
 				used[p.name] = true
 				x, s := check(p.t, v)
+				nullNote(ex, p.t, v, s)
 				if s == stBad {
 					return nil, stBad
 				}
@@ -751,6 +869,7 @@ type expectation struct {
 	validJSON bool
 	isArray   bool
 	nEntries  int
+	nulls     map[string]int // explicit null arguments seen while binding, by predicted treatment and by parameter kind
 }
 
 func keyRes(id, res string) string { return "id=" + id + "|res=" + res }
@@ -851,10 +970,10 @@ func (m *model) entry(v *jv, single bool, ex *expectation) entryExp {
 		out = outcome{isErr: true, code: -32601}
 		e.class = "unknown-method"
 	default:
-		args, st := bind(sp, p)
+		args, st := bind(sp, p, ex)
 		switch st {
 		case stAmb:
-			ex.amb = "argument whose Go decoding is not defined by JSON-RPC (null/integer-valued float/unknown struct field)"
+			ex.amb = "argument whose Go decoding is not defined by JSON-RPC (integer-valued float literal for an int, unknown struct field)"
 			e.class = "ambiguous-argument"
 			return e
 		case stBad:
